@@ -341,7 +341,11 @@ namespace occa {
   }
 
   occa::memory memory::cast(const dtype_t &dtype_) const {
-    occa::memory mem = slice(0);
+    occa::memory mem;
+    if (isInitialized()) {
+      // Keep every byte: slice(0) rounds the size down to whole entries of the current dtype
+      mem = occa::memory(modeMemory->slice(0, modeMemory->size));
+    }
     mem.setDtype(dtype_);
     return mem;
   }
